@@ -98,15 +98,6 @@ pub proof fn lemma_cmp_transfer(dd: int, tn: int, w: int, nb: int, t2: int)
     assert((x * c < y * c) == (x < y) && (x * c > y * c) == (x > y) && (x * c == y * c) == (x == y)) by (nonlinear_arith) requires c > 0;
 }
 // a quotient rounded to nearest never exceeds p when the numerator is below mn * p
-pub proof fn lemma_rne_upper(nn: int, mn: int, p: int)
-    requires mn > 0, p >= 0, 0 <= nn < mn * p
-    ensures 0 <= rne_div(nn, mn) <= p
-{
-    lemma_fundamental_div_mod(nn, mn); lemma_mod_bound(nn, mn);
-    let q = nn / mn; let r = nn % mn;
-    assert(q < p) by (nonlinear_arith) requires nn == mn * q + r, r >= 0, nn < mn * p, mn > 0;
-    assert(q >= 0) by (nonlinear_arith) requires nn == mn * q + r, r < mn, nn >= 0, mn > 0;
-}
 // the decision: with lhs = D * 2^(w+1) and rhs = 10^n * ((2 fl + 1) * 2^(w - nb)) the rounded fraction is fl, fl + 1, or the even one
 pub proof fn lemma_frac_decide(dd: int, tn: int, w: int, nb: int, fl: int)
     requires 0 <= nb <= w, tn >= 1, fl >= 0, fl * tn <= dd * p2(nb), 2 * (dd * p2(nb)) < (2 * fl + 3) * tn
